@@ -156,11 +156,14 @@ static int print_i(void (*printchar_handler)(void *d, int c),
     } while (u);
 
     len = (int)(end - str);
-    zero_count =
-        (len < min_len                                               ? min_len
-         : (ops & OPS_FLAG_ZERO_PAD) && !(ops & OPS_FLAG_LEFT_ALIGN) ? width
-                                                                     : 0) -
-        len - prefix_len;
+    if (len < min_len)
+        /* the precision is a minimum number of digits: a sign or "0x" does not
+         * count, the leading "0" of %#o does */
+        zero_count = min_len - len - (base == 8 ? prefix_len : 0);
+    else if ((ops & OPS_FLAG_ZERO_PAD) && !(ops & OPS_FLAG_LEFT_ALIGN))
+        zero_count = width - len - prefix_len;
+    else
+        zero_count = 0;
     zero_count = MAX(zero_count, 0);
     space_count = width - len - prefix_len - zero_count;
     space_count = MAX(space_count, 0);
@@ -611,7 +614,7 @@ int __printf(void (*printchar_handler)(void *d, int c),
                           (size_t)tmp.vp,
                           0,
                           width,
-                          sizeof tmp.vp * 2 + 2,
+                          sizeof tmp.vp * 2,
                           ops | (OPS_FLAG_WITH_SPEC | OPS_FLAG_ZERO_PAD),
                           16);
             break;
